@@ -17,7 +17,7 @@ func init() {
 		Rule:        "PRNG sequences of put / put(meta) / putNamed (3 names, default and explicit zone) / delete / setEACL over 3 owners and blobs with version-field lengths 0/1/7/127, re-puts of live ids, deletes of missing ids, puts after delete, name reuse, alias expiry (virtual time), signer classes {Alphabet, Majority, member, owner only, nobody}, committees 1/3/4/7; a registry model predicts success and notifications; after every block get/owner/alias/eACL for every id ever used plus unused and wrong-length ids, count, list and containersOf for every owner and the empty owner, NNS TXT records of every alias domain and a raw storage scan are compared with the model. distinct = (operation, signer class, reason/outcome, liveness, fee, committee size).",
 		Assumptions: append(tb, "records of an earlier alias after a re-put under a second name and roster/estimation keys of deleted containers are logged, not judged"),
 		Batches:     tier(96, 1024), Chunk: 4,
-		Floors: []string{"put-ok:put", "put-ok:putmeta", "put-ok:putnamed", "delete-ok", "setEACL-ok", "re-put-of-live-id", "put-refused:tombstoned", "delete-of-missing-id", "name-reused-after-delete", "put-refused:name-taken", "put-refused:no-alphabet-witness"},
+		Floors: []string{"put-ok:put", "put-ok:putmeta", "put-ok:putnamed", "delete-ok", "setEACL-ok", "re-put-of-live-id", "put-refused:tombstoned", "delete-of-missing-id", "name-reused-after-delete", "put-refused:name-taken", "put-refused:no-alphabet-witness", "clock-jump-below-ten-years"},
 		Run:    runC04,
 	})
 	runner.Register(&runner.Check{
